@@ -131,6 +131,16 @@ CHECKS["C06"] = (
     "DESIGN.md section 6, C06",
 )
 
+CHECKS["C08"] = (
+    "Hypothesis-generated read calendars and sub-daily series with integer usage; exact interval-arithmetic reference",
+    "Generated-input search: pure monthly / bi-monthly read calendars (off-cycle periods, boundary lengths aimed at DST changes, "
+    "frame and from_series entry points, 10 zones) and 15/30/60-minute series with NaN and absent blocks around the 50% coverage "
+    "threshold, plus as_freq directly and daily identity; every valid period must sum to the billed amount, off-cycle periods and "
+    "half-covered days must be missing, partially covered days scaled by 1/coverage, nothing invented elsewhere.",
+    "Trusted: the interval arithmetic in vf/props/c08.py; period length = local calendar days; nominal reading interval for sub-daily data.",
+    "DESIGN.md section 6, C08",
+)
+
 PENDING_REASON = "check not built yet in this session (work in progress; property-based testing applies and is planned, see DESIGN.md section 6)"
 
 
